@@ -28,13 +28,13 @@ const (
 
 // Outcome is what one Compile+Eval produced.
 type Outcome struct {
-	Kind string    `json:"kind"`
-	Val  val.Value `json:"-"`
-	Repr string    `json:"value,omitempty"` // canonical rendering of Val
-	Err  string    `json:"err,omitempty"`   // error kind
-	Msg  string    `json:"msg,omitempty"`
-	Site string    `json:"site,omitempty"` // innermost library frame of a panic
-	Raw  interface{} `json:"-"`            // the raw Go result (value outcomes only)
+	Kind string      `json:"kind"`
+	Val  val.Value   `json:"-"`
+	Repr string      `json:"value,omitempty"` // canonical rendering of Val
+	Err  string      `json:"err,omitempty"`   // error kind
+	Msg  string      `json:"msg,omitempty"`
+	Site string      `json:"site,omitempty"` // innermost library frame of a panic
+	Raw  interface{} `json:"-"`              // the raw Go result (value outcomes only)
 }
 
 func (o Outcome) String() string {
